@@ -268,3 +268,12 @@ Print Assumptions C02_cor_bounded_Circular.
 Theorem C02_cor_bounded_TPLSimple : forall ora nu h, 0 < nu -> Rabs (TPLSimple_cor (Rops02 ora) nu h) <= 1.
 Proof. exact cor_bounded_tplsimple. Qed.
 Print Assumptions C02_cor_bounded_TPLSimple.
+
+(* 10. evenness: correlation / covariance / variogram of the nine elementary classes (the correlation_from_cor wrapper of
+       covmodel/tools.py, modelled by hand and executed against /repo at signed lags) depend on |r| only *)
+Theorem C02_functions_even : forall ora c p ell var nugget r,
+  correlation_elem (Rops02 ora) c p ell (- r) = correlation_elem (Rops02 ora) c p ell r
+  /\ covariance_elem (Rops02 ora) c p ell var (- r) = covariance_elem (Rops02 ora) c p ell var r
+  /\ variogram_elem (Rops02 ora) c p ell var nugget (- r) = variogram_elem (Rops02 ora) c p ell var nugget r.
+Proof. exact elem_functions_even. Qed.
+Print Assumptions C02_functions_even.
